@@ -1,6 +1,7 @@
 (* C12 - cancelling work removes it everywhere and disturbs nothing else.
-   Every theorem is stated for both variants of the completion loop: fx = false is /repo as it is (D14), fx = true the
-   loop of fixes/D14.patch; the harness selects the variant that the implementation exhibits.
+   Every theorem is stated for both variants of the completion loop: fx = true is the loop of /repo since 046ff56
+   (iterates over a copy), fx = false the loop before that commit (D14); the harness selects the variant that the
+   implementation exhibits (fx = true on the current tree).
    Statements only; proofs live in rt/CancelThm.v, the model in rt/CancelM.v.
    [run fx P s evs = Some (s', labels)] executes a schedule (list of events) of the whole system (workers, server,
    FIFO channels, clients); every delivery order of CANCEL relative to SUBMIT / RESULT / task steps is such a
@@ -86,20 +87,44 @@ Definition C12_others_unaffected_full : Prop :=
   exists evs' s' l', run fx (erase (sy_issued s) P) (init_sys nw) evs' = Some (s', l')
      /\ sy_issued s' = [] /\ proj (sy_issued s) l = l'.
 
-(* Client cancel.  In every reachable state, when the server handles CANCEL(id) from a client (and the handler does
-   not raise, i.e. the task is still running or its result is still stored - the other cases are D4): the task's
-   mailbox is gone, the id is gone from its owner's set, CANCEL(root address) is appended to the channel of EVERY
-   worker, and in every continuation the mailbox never reappears - so a late RESULT is discarded
-   (C12_server_result_discarded) and never forwarded to the client. *)
-Theorem C12_client_cancel : forall fx P nw evs s0 l0 c id asg s1 l1,
+(* Client cancel (server code as of /repo 50308af).  In every reachable state, when the server handles CANCEL(id) from
+   client c for one of c's own live tasks (id in clients[c]: running, or finished but not yet delivered): afterwards the
+   server holds NOTHING of it - no tasks[id], no mailbox_to_task_dict entry, no mailbox, id gone from clients[c];
+   CANCEL(root address) is appended to the channel of EVERY worker; and in every continuation mailbox and
+   mailbox_to_task_dict entry never reappear, so a late RESULT (C12_server_result_discarded) and a late ERROR / LOG
+   (C12_server_error_discarded) are dropped instead of reaching the client. *)
+Theorem C12_client_cancel : forall fx P nw evs s0 l0 c id asg s1 l1 ids,
   run fx P (init_sys nw) evs = Some (s0, l0) -> step fx P s0 (EClient c (CCancel id) asg) = Some (s1, l1) ->
-  exists mb owner, lookup_n id (s_tasks (sy_server s0)) = Some (mb, owner)
+  lookup_n c (s_clients (sy_server s0)) = Some ids -> In id ids ->
+  exists mb, lookup_n id (s_tasks (sy_server s0)) = Some (mb, c)
+    /\ lookup_n id (s_tasks (sy_server s1)) = None
+    /\ lookup_n mb (s_m2t (sy_server s1)) = None
     /\ lookup_n mb (s_boxes (sy_server s1)) = None
-    /\ (forall ids, lookup_n owner (s_clients (sy_server s1)) = Some ids -> ~ In id ids)
+    /\ (forall ids', lookup_n c (s_clients (sy_server s1)) = Some ids' -> ~ In id ids')
     /\ (forall k q, nth_error (sy_down s0) k = Some q -> nth_error (sy_down s1) k = Some (q ++ [MCancel (0, mb, 0)]))
     /\ sy_issued s1 = sy_issued s0 ++ [(0, mb, 0)]
-    /\ (forall evs2 s2 l2, run fx P s1 evs2 = Some (s2, l2) -> lookup_n mb (s_boxes (sy_server s2)) = None).
+    /\ (forall evs2 s2 l2, run fx P s1 evs2 = Some (s2, l2) ->
+          lookup_n mb (s_boxes (sy_server s2)) = None /\ lookup_n mb (s_m2t (sy_server s2)) = None).
 Proof. exact client_cancel. Qed.
+
+(* CANCEL for anything else (finished and delivered, cancelled before, unknown, another client's task) is only
+   acknowledged: no table, channel or worker changes, nothing is issued ... *)
+Theorem C12_client_cancel_other : forall fx P nw evs s0 l0 c id asg s1 l1 ids,
+  run fx P (init_sys nw) evs = Some (s0, l0) -> step fx P s0 (EClient c (CCancel id) asg) = Some (s1, l1) ->
+  lookup_n c (s_clients (sy_server s0)) = Some ids -> ~ In id ids ->
+  sy_server s1 = sy_server s0 /\ sy_down s1 = sy_down s0 /\ sy_up s1 = sy_up s0 /\ sy_workers s1 = sy_workers s0
+  /\ sy_issued s1 = sy_issued s0.
+Proof. exact client_cancel_other. Qed.
+
+(* ... and the handler never raises for a connected client (D4 is gone). *)
+Theorem C12_client_cancel_total : forall fx P nw evs s0 l0 c id asg ids,
+  run fx P (init_sys nw) evs = Some (s0, l0) -> lookup_n c (s_clients (sy_server s0)) = Some ids ->
+  exists s1 l1, step fx P s0 (EClient c (CCancel id) asg) = Some (s1, l1).
+Proof. exact client_cancel_total. Qed.
+
+Theorem C12_server_error_discarded : forall nw comp kind asg s, lookup_n comp (s_m2t s) = None ->
+  sup nw (MError comp kind) asg s = Some (s, no_out, []).
+Proof. exact sup_error_discarded. Qed.
 
 Theorem C12_server_result_discarded : forall nw mb slot v by_ asg s, lookup_n mb (s_boxes s) = None ->
   sup nw (MResult (0, mb, slot) v by_) asg s = Some (s, no_out, [LSrvDiscard mb v]).
@@ -115,7 +140,8 @@ Theorem C12_client_disconnect : forall fx P nw evs s0 l0 c order asg s1 l1,
   /\ (forall id mb, lookup_n id (s_tasks (sy_server s0)) = Some (mb, c) ->
         lookup_n id (s_tasks (sy_server s1)) = None /\ lookup_n mb (s_m2t (sy_server s1)) = None
         /\ lookup_n mb (s_boxes (sy_server s1)) = None
-        /\ forall evs2 s2 l2, run fx P s1 evs2 = Some (s2, l2) -> lookup_n mb (s_boxes (sy_server s2)) = None)
+        /\ forall evs2 s2 l2, run fx P s1 evs2 = Some (s2, l2) ->
+             lookup_n mb (s_boxes (sy_server s2)) = None /\ lookup_n mb (s_m2t (sy_server s2)) = None)
   /\ (forall a, In a (sy_issued s1) -> In a (sy_issued s0)
         \/ exists id mb, lookup_n id (s_tasks (sy_server s0)) = Some (mb, c) /\ a = (0, mb, 0))
   /\ (forall a k q, In a (sy_issued s1) -> ~ In a (sy_issued s0) -> nth_error (sy_down s1) k = Some q -> In (MCancel a) q).
@@ -129,7 +155,8 @@ Theorem C12_quiescent_clean_refuted :
     /\ forallb no_orphans (sy_workers s) = true.
 Proof. exact d8_witness. Qed.
 
-(* D14.  "Task completion cancels its unfinished children" is false for the code as it is: a task that returns with
+(* D14 (historical, fixed in /repo 046ff56; statement about the old loop, fx = false).  "Task completion cancels its
+   unfinished children" was false: a task that returns with
    two un-awaited futures cancels only the first (Worker.cancel removes from the list _process_task_completion is
    iterating over).  The second mailbox outlives its owner for ever, its child is run although nobody can receive its
    result, and no CANCEL is ever issued for it. *)
@@ -142,14 +169,14 @@ Theorem C12_completion_cancels_children_refuted :
     /\ forallb no_orphans (sy_workers s) = false.
 Proof. exact d14_witness. Qed.
 
-(* With the loop of fixes/D14.patch (fx = true) the completion of a task leaves none of the mailboxes it still owned:
+(* With the current loop (fx = true, iterates over a copy) the completion of a task leaves none of the mailboxes it still owned:
    every one of them is dropped, with a CANCEL for its children unless all their results were in. *)
 Theorem C12_completion_cancels_children_fixed : forall wid st st',
   completion true wid st = Some st' ->
   forall mb, In mb (rt_owned (c_rt st)) -> lookup_b mb (c_boxes st') = None.
 Proof. exact completion_fixed_all. Qed.
 
-(* the D14 scenario under the repaired loop: both children cancelled, neither is run, nothing is left *)
+(* the D14 scenario under the current loop: both children cancelled, neither is run, nothing is left *)
 Example C12_completion_fixed_example :
   exists s labs, run true d14_progs (init_sys 1)
       [EClient 0 CConnect []; EClient 0 (CSubmit 0 0) [(0, [0])]; EDown 0; EStep 0;
@@ -194,5 +221,6 @@ Example C12_client_nonvacuous :
   exists s labs, run false [[ISubmit 1; IAwait 0]; []] (init_sys 2)
       [EClient 0 CConnect []; EClient 1 CConnect []; EClient 0 (CSubmit 0 0) [(0, [0])]; EClient 1 (CSubmit 1 0) [(1, [0])];
        EDown 0; EStep 0; EClient 0 (CCancel 0) []; EClient 1 (CDisconnect [1]) []] = Some (s, labs)
-    /\ sy_issued s = [(0, 0, 0); (0, 1, 0)] /\ s_tasks (sy_server s) = [(0, (0, 0))] /\ s_boxes (sy_server s) = [].
+    /\ sy_issued s = [(0, 0, 0); (0, 1, 0)] /\ s_tasks (sy_server s) = [] /\ s_m2t (sy_server s) = []
+    /\ s_boxes (sy_server s) = [].
 Proof. eexists. eexists. split; [vm_compute; reflexivity|]. vm_compute. auto. Qed.
